@@ -232,3 +232,14 @@ CHECKS["C12"] = {
     "units": [{"name": "c12", "pkg": "c12", "run": "^Test", "shards": 12}],
     "expect_checks": ["c12.server", "c12.transport"],
 }
+
+CHECKS["C13"] = {
+    "level": "exploration",
+    "technique": "model-based property testing (rapid under testing/synctest): a generated client frame script (HEADERS on new / skipped / lower / even / zero / open / half-closed / closed streams, well-formed and eleven kinds of malformed header blocks, CONTINUATION chains incl. interrupted and stray ones, DATA incl. padded / padding-only / bad padding on every stream state, RST_STREAM, WINDOW_UPDATE, PRIORITY incl. self-dependency and bad length, SETTINGS valid and invalid, PING, PUSH_PROMISE, GOAWAY, unknown types, handler release) is played by a raw peer against the fork's http2.Server.ServeConn with MaxConcurrentStreams 1..3 and finish / hang / read-body handlers; after every frame (quiescence) the server's frames and the handler log are compared with the set of reactions a reference model of RFC 9113 section 5.1 admits",
+    "rule": "case = advertised limit + 1..28 client frames (at most one connection-level protocol violation, as the last frame). Non-trivial = the script contains an illegal frame and a handled request, or reaches the concurrency limit, or uses CONTINUATION; distinct by hash of the script.",
+    "level_text": "Generated histories against a reference model: a handler starts only for a complete, well-formed header block on a new, odd, strictly increasing stream id within the advertised limit, and exactly once; legal frames draw no RST_STREAM/GOAWAY; illegal frames draw an error from the admissible set (escalation to a connection error admitted, hardening reactions admitted as 'any connection error'); GOAWAY's last-stream-id covers every handled request; after an error GOAWAY no handler starts and the connection closes within 2 s of fake time; PING and SETTINGS are acknowledged.",
+    "level_note": "Trusted: the model in harness/c13 (admissible sets per (state, frame), DESIGN Appendix A, corrected in section 6 where it proved stricter than the RFC). Where the RFC leaves the reaction open (frames on a stream the server itself reset, connection-specific header fields) the whole set is admitted.",
+    "assumptions": ["flow control is kept legal (C12 covers it)", "client GOAWAY and frames above the server's MAX_FRAME_SIZE are not generated"],
+    "units": [{"name": "c13", "pkg": "c13", "run": "^Test", "shards": 12}],
+    "expect_checks": ["c13.model"],
+}
